@@ -181,6 +181,9 @@ MUTANTS = [
      "        opd = set(other.get_demoted())\n        self.pixeldict[self.maxdepth].intersection_update(opd)",
      "        opd = set(other.get_demoted())\n        if len(opd) == 0:\n            return\n"
      "        self.pixeldict[self.maxdepth].intersection_update(opd)", "C08-R3"),
+    ("pixel ids cast to int32", "AegeanTools/regions.py",
+     "pix = hp.ang2pix(2**self.maxdepth, theta, phi, nest=True)",
+     "pix = hp.ang2pix(2**self.maxdepth, theta, phi, nest=True).astype(np.int32)", "C08-R10"),
 ]
 TWINS = [
     ("shift instead of floor division", "AegeanTools/regions.py",
@@ -229,6 +232,16 @@ def run(ctx):
     # ------------------------------------------------------------- R8
     r8(ctx, ci)
     r9_cache_alias(ctx, ci, "C08-R9")
+    from .. import precision
+    precision.rule(
+        ctx, ctx.prog, "C08-R10",
+        [lambda sh: sh.startswith("regions.Region.")],
+        "pixel identifiers keep full width: no cast to a 32-bit (or "
+        "narrower) integer / float type anywhere in Region -- at depth >= "
+        "14 a level has 12*4**14 > 2**31 pixels, so narrowed identifiers "
+        "wrap and stop being valid for their level",
+        "a narrow dtype is used on the way of the pixel identifiers",
+        floats=True, ints=True, floor=15)
     # ------------------------------------------------------------- R7
     n = link.check(ctx, ["regions.Region." + m for m in ci.methods] +
                    ["MIMAS.combine_regions", "MIMAS.mask2mim",
